@@ -31,13 +31,13 @@ TParse ==
          m  == IF ev.via = "inputs" THEN MeaningViaInputs(c.decl, c.allowed, c.greedy, ev.env, ev.argv)
                ELSE Meaning(c.decl, c.allowed, c.greedy, ev.env, ev.argv)
          obs == [oc |-> ev.oc, st |-> ev.st, pos |-> ev.pos]
-     IN /\ (hist # <<>> => c = cfg /\ ev.env = env)        \* same parser object, same environment
+     IN /\ (hist # <<>> => c = cfg)                        \* same parser object; the environment may have changed (ChangeEnv)
         /\ \/ obs = m
            \/ GreedyOpen(c.decl, c.greedy, ev.argv) /\ ev.oc \in {"ok", "error"}
         \* C02: when the driver rendered the vector from an assignment, the vector must spell it
         /\ (ev.want.k = "some" /\ ev.via = "argv") => m = [oc |-> "ok", st |-> ev.want.st, pos |-> ev.want.pos]
         /\ cfg' = c /\ env' = ev.env /\ argv' = ev.argv
-        /\ hist' = Append(hist, [argv |-> ev.argv, res |-> obs, why |-> "", via |-> ev.via])
+        /\ hist' = Append(hist, [argv |-> ev.argv, res |-> obs, why |-> "", via |-> ev.via, env |-> ev.env])
         /\ phase' = (IF ev.oc = "ok" THEN "done" ELSE "error")
         /\ reason' = (IF ev.oc = "ok" THEN "" ELSE "Unknown")
         /\ positionals' = ev.pos
